@@ -173,6 +173,41 @@ def factor_degree(t, pname, depth=0):
     return 1 if any(x.op == 'param' and x.args[0] == pname for x in walk_terms(t, into_mu=False)) else 0
 
 
+def check_default_saliency(run, A):
+    """R-DEP: `saliency=None` means "every observation counts once".  Wherever a trainer replaces the missing saliency, the replacement is an array
+    of ones and a given saliency is kept as it is (a zeros default / a flipped test silently removes all - or the caller's - observation weights)."""
+    from ..walk import gamma_paths, none_test
+    n = 0
+    fns = []
+    for cname, mod in LP.TRAINERS.items():
+        cls = A.prog.cls(f'{D}{mod}::{cname}Trainer')
+        fns += [m for nm, m in cls.methods.items() if nm in ('fit', '_fit') and 'saliency' in m.params]
+    fns.append(A.prog.func(D + 'von_mises_fisher::VonMisesFisherTrainer._fit'))
+    for fn in fns:
+        g = A.graphs.get(fn)
+        roots = [e.term for e in g.events if e.kind == 'call'] + [g.ret]
+        seen = set()
+        for r in roots:
+            for t in walk_terms(r, into_mu=False):
+                if t.op != 'gamma' or t.id in seen:
+                    continue
+                seen.add(t.id)
+                x, is_none = none_test(t.args[0])
+                if x is None or not (x.op == 'param' and x.args[0] == 'saliency'):
+                    continue
+                a, b = (t.args[1], t.args[2]) if is_none else (t.args[2], t.args[1])          # a: value when saliency is None, b: when given
+                sa, sb = strip_views(a), strip_views(b)
+                if not (sb.op == 'param' and sb.args[0] == 'saliency') and not (sa.op == 'param' and sa.args[0] == 'saliency'):
+                    continue          # not the replacement idiom (e.g. masked_affiliation = affiliation if saliency is None else affiliation * saliency)
+                n += 1
+                ones = is_call_to(sa, 'numpy.ones_like', 'numpy.ones') or (const_val(sa) is not NOVAL and const_val(sa) == 1)
+                kept = sb.op == 'param' and sb.args[0] == 'saliency'
+                run.check(ones and kept, 'R-DEP', f'{fn.qual.split("::")[1]}: a missing saliency is replaced by ones, a given one is kept', fn.loc(t.node or sa.node), '',
+                          f'replacement when saliency is None is an array of ones: {bool(ones)}; the given saliency is used unchanged: {kept}',
+                          construct=f'R-DEP::{fn.qual}::default-saliency')
+    run.floor('C08 default-saliency replacements', n, 7)
+
+
 def check_plumbing(run, A):
     prog, ev = A.prog, A.ev
     n = 0
@@ -361,7 +396,8 @@ def check_estimators(run, A):
                 ok = obs_letter is not None and obs_letter not in out and all(obs_letter in ins[i] for i in others) and all(c in out or c == obs_letter for c in ins[i0])
                 run.check(ok, 'R-EIN', f'{short} {sub!r}: saliency weights the observation axis that is summed', s.loc, '',
                           f'{sub!r}: the saliency operand\'s observation index must be shared with every data operand and summed over', construct=f'R-EIN::{q}::weighted-sum')
-        ein_generic = sum(ein.check_generic(run, s) for s in weighted)
+        # generic sesquilinear rules on every scatter contraction of the estimator (with and without saliency)
+        ein_generic = sum(ein.check_generic(run, s) for s in sites if s.parsed and len(s.operands) >= 2)
         # normaliser: sum of the same saliency (or N without saliency), applied by division
         if sums:
             for s in sums:
@@ -430,6 +466,54 @@ def check_estimators(run, A):
         okc = lo.op == 'param' and lo.args[0] == 'min_concentration' and hi.op == 'param' and hi.args[0] == 'max_concentration'
     run.check(okc, 'R-SAN', 'vMF update: concentration clipped to [min_concentration, max_concentration]', fn.loc(), '',
               'the stored concentration is not np.clip(., min_concentration, max_concentration)', construct=f'R-SAN::{q}::clip')
+    # Banerjee's estimate kappa = r_bar (D - r_bar^2) / (1 - r_bar^2) with r_bar = ||sum_n s_n y_n|| / sum_n s_n: compared as a quotient of polynomials over
+    # {r_bar, D}, so any equivalent arrangement of the formula is accepted and any other one is a recognised deviation
+    if okc:
+        from ..ratfun import rational, NotRational, A as _A, C as _C
+        from ..walk import as_norm
+        x_ = call_arg(conc, 0, 'a')
+        # r_bar is the quantity the formula is written in: the arithmetic sub-term that is referred to more than once
+        refs = {}
+
+        def count(t):
+            t0 = strip_views(t)
+            if not isinstance(t0, T):
+                return
+            refs[t0.id] = (refs.get(t0.id, (0, t0))[0] + 1, t0)
+            if refs[t0.id][0] == 1 and t0.op in ('binop', 'iop', 'unop'):
+                for a_ in t0.args[1:]:
+                    count(a_)
+        count(x_)
+        shared = [t0 for n_refs, t0 in refs.values() if n_refs >= 2 and t0.op not in ('const',) and not (t0.op == 'sub' and t0.args[0].op == 'attr')]
+        rbar = shared[:1]
+
+        def atoms(t):
+            t0 = strip_views(t)
+            from ..walk import shape_dim
+            sd = shape_dim(t0)
+            if sd is not None and sd[0].op == 'param' and sd[0].args[0] == 'y':
+                return 'D' if sd[1] == -1 else f'y.shape[{sd[1]}]'          # the feature dimension is the LAST axis
+            if rbar and t0 is rbar[0]:
+                return 'r'
+            return None
+        try:
+            got = rational(x_, atoms)
+        except NotRational as e:
+            run.unresolved('R-SAN', 'vMF update: concentration formula', fn.loc(), f'not a recognised rational expression of the mean resultant length ({e})')
+        else:
+            want = (_A('r') * _A('D') - _A('r') ** 3) / (_C(1) - _A('r') ** 2)
+            run.check(got.same(want), 'R-SAN', 'vMF update: concentration = r (D - r^2) / (1 - r^2)', fn.loc(getattr(x_, 'node', None)), '',
+                      f'the concentration estimate is not r_bar * (D - r_bar**2) / (1 - r_bar**2) (found {got})', construct=f'R-SAN::{q}::banerjee')
+            if rbar:
+                is_div = rbar[0].op in ('binop', 'iop') and rbar[0].args[0] == 'Div'
+                nrm = as_norm(rbar[0].args[1]) if is_div else None
+                den = strip_views(rbar[0].args[2]) if is_div else rbar[0]
+                mass = (is_call_to(den, 'numpy.sum') and const_val(call_arg(den, 1, 'axis')) == -1 and is_saliency_term(call_arg(den, 0))) or \
+                    (is_call_to(den, 'numpy.einsum') and any(is_saliency_term(o) for o in call_parts(den)[1][1:]))
+                okr = nrm is not None and nrm[1] is not None and const_val(nrm[1]) == -1 and is_call_to(nrm[0], 'numpy.einsum') and mass
+                run.check(okr, 'R-SAN', 'vMF update: r_bar = ||sum_n s_n y_n|| / sum_n s_n', fn.loc(rbar[0].node), '',
+                          'the mean resultant length is not the norm (over the feature axis) of the saliency-weighted resultant divided by the saliency mass',
+                          construct=f'R-SAN::{q}::resultant-length')
     mean = kw.get('mean')
     okm = False
     if mean is not None:
@@ -461,6 +545,7 @@ def check(run):
     run.trusted = ['names of the estimator parameters (saliency, quadratic_form, weight_constant_axis, affiliation_eps)']
     check_alternation(run, A)
     check_plumbing(run, A)
+    check_default_saliency(run, A)
     check_options(run, A)
     # the aligner between E- and M-step reorders posterior and quadratic form with ONE mapping and by the same gather (shared rule instance with C14):
     # otherwise the cACG M-step of class k pairs the posterior of class k with the quadratic form of another class
